@@ -238,9 +238,7 @@ pub fn eval_prepared(cfg: &Config, prep: &mut Prepared, body_table: &SafetyDesc,
             }
         }
         0 => {
-            if observed.len() > 1 {
-                fails.push((format!("C10/first-mode-many/{ctx}"), format!("first-collision mode reported {observed:?}")));
-            }
+            // (the statement asks for a subset containing at least one colliding pair: more than one is allowed)
             for p in &obs {
                 if !hit.contains(p) && !boundary.contains(p) {
                     fails.push((format!("C10/spurious-pair/{}/{ctx}/first", pair_class(*p)), format!("pair {p:?} reported, oracle distance {:?}", dist.get(p))));
